@@ -235,15 +235,16 @@ def unscale_exact(Y, E2):
     return out
 
 
-# ---------------------------------------------------------------- holders of a narrow element type (findings C14-F4, C14-F5)
+# ---------------------------------------------------------------- holders of a narrow element type (findings C14-F4, C14-F5: repaired;
+# tucker_wraps is used by the GENERATOR only, to pick magnitudes at which the unrepaired code wrapped — no trigger depends on it)
 INT_RANGE = {"int8": (-2 ** 7, 2 ** 7 - 1), "uint8": (0, 2 ** 8 - 1), "int16": (-2 ** 15, 2 ** 15 - 1), "uint16": (0, 2 ** 16 - 1),
              "int32": (-2 ** 31, 2 ** 31 - 1), "int64": (-2 ** 63, 2 ** 63 - 1)}
 
 
-def tucker_wraps(a):
+def tucker_wraps(a, limits=None):
     """does an intermediate of ttensor.nvecs — U_m^T U_m (m != n), H = core x_m V_m, GnT Un^T, Y — leave the range of the integer
-    holder type a['hdtype']?  (exact Python integers; mirrors the algebra, not the code)"""
-    lo, hi = INT_RANGE[a["hdtype"]]
+    holder type a['hdtype'] (or the range `limits`)?  (exact Python integers; mirrors the algebra, not the code)"""
+    lo, hi = limits or INT_RANGE[a["hdtype"]]
     d, n, cs, shape = len(a["shape"]), a["n"], a["tcs"], a["shape"]
     Us = a["tf"]
 
@@ -288,3 +289,10 @@ def tucker_wraps(a):
     keys = {k for _, k in xn}
     y = [sum(hn[(p, k)] * xn[(q, k)] for k in keys) for p in range(shape[n]) for q in range(shape[n])]
     return out(y)
+
+
+def tucker_float_exact(a):
+    """True when float64 arithmetic forms every intermediate of ttensor.nvecs on the integer request exactly, in any summation order: the
+    same computation on the ABSOLUTE values of core and factors (which bounds every partial sum) stays below 2^53"""
+    aa = dict(a, tcore=[abs(v) for v in a["tcore"]], tf=[[[abs(x) for x in row] for row in U] for U in a["tf"]])
+    return not tucker_wraps(aa, (-2 ** 53, 2 ** 53))
